@@ -6,7 +6,7 @@ cd /verif
 ALL="C01 C02 C03 C04 C05 C06 C07 C08 C09 C10 C11 C12 C13 C14 C15 C16 C17 C19"
 fa=0; miss=0; nb=0; ns=0; skipped=0
 if [ "${1:-all}" != "seeded" ]; then
-for d in benign/*/; do
+for d in /verif/benign/*/; do
   n=$(basename "$d")
   if ! git -C /repo apply --check "$d/patch.diff" 2>/dev/null; then echo "BENIGN $n: skipped (does not apply to the current tree)"; skipped=$((skipped+1)); continue; fi
   git -C /repo apply "$d/patch.diff"
@@ -17,7 +17,7 @@ for d in benign/*/; do
 done
 fi
 if [ "${1:-all}" != "benign" ]; then
-for d in seeded/*/; do
+for d in /verif/seeded/*/; do
   n=$(basename "$d"); p=${n%%-*}
   if ! git -C /repo apply --check "$d/patch.diff" 2>/dev/null; then echo "SEEDED $n: skipped (does not apply to the current tree)"; skipped=$((skipped+1)); continue; fi
   git -C /repo apply "$d/patch.diff"
